@@ -456,6 +456,24 @@ def ite(c, a, b):
 
 
 # ----------------------------------------------------------------------------
+TIME_UNIT_US = {"ns": fractions.Fraction(1, 1000), "us": 1, "ms": 10**3, "s": 10**6, "m": 60 * 10**6, "h": 3600 * 10**6, "D": 86400 * 10**6}
+
+
+def _time_operand(arr, other):
+    """a (symbolic) timedelta compared / combined with an array of counts of a time unit: the timedelta in that unit
+    (exact: NumPy compares in the finer common unit)"""
+    unit = getattr(arr, "time_unit", None)
+    if unit is None or isinstance(other, (Sym, SArr, int, float, fractions.Fraction)):
+        return other
+    import datetime as _dtm
+    if isinstance(other, _dtm.timedelta):
+        us = (other.days * 86400 + other.seconds) * 10**6 + other.microseconds
+        return fractions.Fraction(us) / TIME_UNIT_US[unit]
+    if hasattr(other, "total_us"):
+        return Sym(z3.ToReal(lift(other.total_us))) / TIME_UNIT_US[unit]
+    return other
+
+
 class SArr:
     """Symbolic n-d array: shape (tuple of int | Sym-int) and fn(*idx) -> scalar.
 
@@ -507,7 +525,7 @@ class SArr:
 
     # elementwise machinery -------------------------------------------------
     def _ew(self, other, op, dtype=None):
-        return elementwise(op, [self, other], dtype)
+        return elementwise(op, [self, _time_operand(self, other)], dtype)
 
     def _rew(self, other, op, dtype=None):
         return elementwise(op, [other, self], dtype)
@@ -791,4 +809,8 @@ def elementwise(op, operands, dtype=None):
 
     def fn(*idx):
         return op(*[index_into(o, idx, nd) for o in ops])
-    return SArr(shape, fn, dtype)
+    res = SArr(shape, fn, dtype)
+    for o in operands:
+        if getattr(o, "time_unit", None):
+            res.time_unit = o.time_unit       # integer counts of a time unit (datetime64 / timedelta64 arrays)
+    return res
